@@ -23,7 +23,7 @@ EXPLANATION = (
     "the form that is correct for i == -1; (6) normalisation: arithmetic that assumes an ascending, well-ordered "
     "range (min(x, stop), stop - start, x < stop) is reachable only after negative steps and reversed bounds were normalised."
     ' Round 4: (9) _focus is written only by __init__ and the focus setter, the one place that fires the focus-changed callback.'
-    ' Round-4 triage: (10) extend / slice assignment materialise their iterable, sort() re-finds the focus by identity, the empty list is handled before the stored index is shifted; (11) index / count parameters are coerced with operator.index() before the override computes with them, the constructor focus goes through the validating setter, clear() reports the removal of the whole list.'
+    ' Round-4 triage: (10) extend / slice assignment materialise their iterable, sort() re-finds the focus by identity, the empty list is handled before the stored index is shifted; (11) index / count parameters are coerced with operator.index() before the override computes with them, the constructor focus goes through the validating setter, clear() reports the removal of the whole list. Round 5: (12) the focus moves to `stop` exactly under start + len(new_items) <= focus < stop.'
 )
 NOT_DECIDED = "The index arithmetic of _adjust_focus_on_contents_modified (which position the focus ends up at), equality with a built-in list for all operation sequences, error parity for every bad index."
 ASSUMPTIONS = ["The list of mutators is derived from the `list` type of the analysing interpreter (CPython 3.12)."]
@@ -614,12 +614,67 @@ def rule_index_coercion(ctx: Ctx) -> RuleResult:
     return rr
 
 
+def rule_replaced_range(ctx: Ctx) -> RuleResult:
+    """For a contiguous slice (step 1) the first len(new_items) positions of [start, stop) are *replaced in place* -
+    the focus keeps its index there - and the positions from start + len(new_items) up to stop are *removed* - the
+    focus moves to the item following them (`focus = stop`, shifted afterwards).  The test that sends the focus to
+    `stop` therefore has exactly the bounds  start + len(new_items) <= focus < stop : a lower bound of `start`
+    with an extra `not new_items` treats every shrinking replacement as in-place and leaves the focus on an
+    unrelated later item."""
+    from ..rules.util import linear
+
+    p = ctx.p
+    rr = RuleResult("BOUND", "C16.12", "the focus moves to `stop` exactly for start + len(new_items) <= focus < stop (the removed tail of a contiguous slice)", floor=1)
+    fi = p.func(f"{ML}.MonitoredFocusList._adjust_focus_on_contents_modified")
+    cfg = cfg_of(fi)
+    triple = None
+    nnew = None
+    for n in fi.own_nodes():
+        if isinstance(n, ast.Assign) and isinstance(n.value, ast.Call) and isinstance(n.value.func, ast.Attribute) and n.value.func.attr == "indices":
+            for t in n.targets:
+                if isinstance(t, ast.Tuple) and len(t.elts) == 3:
+                    triple = [e.id for e in t.elts if isinstance(e, ast.Name)]
+        if isinstance(n, ast.Assign) and isinstance(n.value, ast.Call) and isinstance(n.value.func, ast.Name) and n.value.func.id == "len" and n.value.args and isinstance(n.value.args[0], ast.Name) and n.value.args[0].id == fi.params[2] and isinstance(n.targets[0], ast.Name):
+            nnew = n.targets[0].id
+    if not triple or len(triple) != 3 or nnew is None:
+        raise AnalysisError("_adjust_focus_on_contents_modified: slice triple / len(new_items) not found")
+    start, stop, _step = triple
+    moves = [n for n in cfg.nodes if isinstance(n.ast, ast.Assign) and isinstance(n.ast.value, ast.Name) and n.ast.value.id == stop and isinstance(n.ast.targets[0], ast.Name) and n.ast.targets[0].id != stop]
+    if not moves:
+        raise AnalysisError("_adjust_focus_on_contents_modified: the statement `focus = stop` was not found")
+    for m in moves:
+        fvar = m.ast.targets[0].id
+        tests = [t for t in cfg.nodes if t.kind == "test" and m not in ExcEngine._reach_without_edge(cfg, t, "T") and fvar in {x.id for x in ast.walk(t.ast) if isinstance(x, ast.Name)}]
+        atoms = []
+        for t in tests:
+            parts = t.ast.values if isinstance(t.ast, ast.BoolOp) and isinstance(t.ast.op, ast.And) else [t.ast]
+            for c in parts:
+                if isinstance(c, ast.Compare):
+                    items = [c.left, *c.comparators]
+                    for a, op, b in zip(items, c.ops, items[1:]):
+                        if isinstance(op, (ast.GtE, ast.Gt)):
+                            a, b, op = b, a, (ast.LtE() if isinstance(op, ast.GtE) else ast.Lt())
+                        atoms.append((linear(ast.BinOp(left=b, op=ast.Sub(), right=a)), type(op).__name__, ast.unparse(ast.Compare(left=a, ops=[op], comparators=[b]))))
+                else:
+                    atoms.append((None, "other", ast.unparse(c)))
+        want_lo = ({fvar: 1, start: -1, nnew: -1}, "LtE")   # start + n <= focus   <=>   focus - start - n >= 0
+        want_hi = ({stop: 1, fvar: -1}, "Lt")                # focus < stop
+        got = [(l, o) for l, o, _ in atoms]
+        ok = want_lo in got and want_hi in got and all(o != "other" and (l, o) in (want_lo, want_hi) for l, o, _ in atoms)
+        rr.inst(f"focus = stop under {[a[2] for a in atoms]}", True, {"move": norm(m.stmt, 30), "tests": [a[2] for a in atoms], "exact": ok})
+        if not ok:
+            rr.add(finding("BOUND", fi, m.stmt, f"`{norm(m.stmt, 30)}` is reached under {[a[2] for a in atoms]}, not under {start} + {nnew} <= {fvar} < {stop}: positions of the old range that receive no replacement are removed, and a focus on one of them has to move to the item after the range - with other bounds a shrinking slice assignment leaves the focus index where it was, on an unrelated later item", construct=f"removed-range test {[a[2] for a in atoms]}"))
+    return rr
+
+
 def run(ctx: Ctx):
-    return [rule_cover(ctx), rule_order(ctx), rule_wrapper(ctx), rule_focus_setter(ctx), rule_slice_triple(ctx), rule_slice_norm(ctx), rule_norm_simultaneous(ctx), rule_index_slice_idiom(ctx), rule_focus_writers(ctx), rule_list_semantics(ctx), rule_index_coercion(ctx)]
+    return [rule_cover(ctx), rule_order(ctx), rule_wrapper(ctx), rule_focus_setter(ctx), rule_slice_triple(ctx), rule_slice_norm(ctx), rule_norm_simultaneous(ctx), rule_index_slice_idiom(ctx), rule_focus_writers(ctx), rule_list_semantics(ctx), rule_index_coercion(ctx), rule_replaced_range(ctx)]
 
 
 _F = "urwid/widget/monitored_list.py"
 MUTANTS = [
+    Mut("shrinking-replacement-treated-as-in-place", _F, "MonitoredFocusList._adjust_focus_on_contents_modified", "if start + num_new_items <= focus < stop:", "if start <= focus < stop and not num_new_items:", "BOUND|widget.monitored_list.MonitoredFocusList._adjust_focus_on_contents_modified|removed-range"),
+    Mut("twin-removed-range-two-comparisons", _F, "MonitoredFocusList._adjust_focus_on_contents_modified", "if start + num_new_items <= focus < stop:", "if focus >= start + num_new_items and focus < stop:", twin=True),
     Mut("delitem-raw-index-arithmetic", _F, "MonitoredFocusList.__delitem__", "            y = operator.index(y)  # like list: any object with __index__\n", "", "KIND|widget.monitored_list.MonitoredFocusList.__delitem__"),
     Mut("imul-raw-count-compare", _F, "MonitoredFocusList.__imul__", "        n = operator.index(n)  # like list: any object with __index__\n", "", "KIND|widget.monitored_list.MonitoredFocusList.__imul__"),
     Mut("ctor-focus-unchecked", _F, "MonitoredFocusList.__init__", "        self._focus = 0\n        self.focus = focus  # validated like every later assignment\n", "        self._focus = focus\n", "KIND|widget.monitored_list.MonitoredFocusList.__init__"),
